@@ -55,7 +55,7 @@ def lib_test_verdict(text):
         return None  # library refuses: CLI behaviour is an exception, not judged here
 
 
-def judge(argv, text, tmpdir):
+def judge(argv, text, tmpdir, judge_all=False):
     fails = []
     runs = _channels(argv, text, tmpdir)
     (c1, code1, so1, exc1), (c2, code2, so2, exc2) = runs
@@ -93,11 +93,14 @@ def judge(argv, text, tmpdir):
         fails.append(("stdout-differs-from-library-text", {"want_tail": want[-30:], "got_tail": so[-30:], "len": [len(want), len(so)]}))
     else:
         # redirecting the output over the file and running test
+        # the statement promises that `nima test` accepts the redirected output of every successful edit of a file that
+        # ended in a newline (inputs of the harness-size limit aside); texts from the arbitrary-program generator are
+        # judged only when they are fixed points (their non-fixed-point findings belong to C06's tables)
         try:
-            fixed = cst.env_ok(lib) and nima.rt(lib) == lib and not cst.parse(lib).root.has_error
+            fixed = cst.env_ok(lib) and not cst.parse(lib).root.has_error and (judge_all or nima.rt(lib) == lib)
         except Exception:  # noqa: BLE001
             fixed = False
-        if fixed and lib.endswith("\n"):
+        if fixed and text.endswith("\n"):
             c3, so3, _se, e3 = nima.cli(["test"], so)
             if (so3, c3) != ("OK\n", 0):
                 fails.append(("test-rejects-emitted-file", {"stdout": so3, "code": c3}))
@@ -191,7 +194,7 @@ def gen_command(r, text, op_kw, flags):
 
 def replay(case):
     with tempfile.TemporaryDirectory() as td:
-        fails, outcome = judge(case["argv"], case["text"], td)
+        fails, outcome = judge(case["argv"], case["text"], td, judge_all=bool(case.get("judge_all")))
         if case.get("must_fail") and outcome == "edit-ok":
             fails = fails + [("exit-zero-on-edit-that-must-fail:" + case["must_fail"], {"argv": case["argv"]})]
         if case.get("subprocess"):
@@ -223,9 +226,9 @@ def run_shard(sh):
             argv, cmdcls = gen_command(r, text, op_kw, flags)
             if any(a == "" for a in argv[1:2]) and argv[0] != "test":
                 pass
-            case = {"argv": argv, "text": text, "must_fail": cmdcls.split("!must-fail:")[1] if "!must-fail:" in cmdcls else None}
+            case = {"argv": argv, "text": text, "judge_all": kind in ("canonical", "newlines"), "must_fail": cmdcls.split("!must-fail:")[1] if "!must-fail:" in cmdcls else None}
             nima.reset_state()
-            fails, outcome = judge(argv, text, tmpdir)
+            fails, outcome = judge(argv, text, tmpdir, judge_all=kind in ("canonical", "newlines"))
             if "!must-fail:" in cmdcls and kind not in ("canonical", "newlines"):
                 # the model's refusals are claimed for generated documents only (arbitrary programs meet open findings
                 # of the round-trip family, e.g. comments inside attrpaths)
